@@ -10,7 +10,7 @@ Used by the property scripts of C01 C02 C03 C04 C05 C06 C09 (flavours mpsc_b / m
 """
 import os
 import sys
-from vlib import VERIF
+from vlib import VERIF, CHAN_RUSTFLAGS
 
 sys.path.insert(0, os.path.join(VERIF, "props"))
 import mpsc3b_gen  # noqa: E402
@@ -59,7 +59,7 @@ def _cmd(*argv):
 
 def tie(ctx):
     drv = ctx.lean_exe("fvdrv_mpsc3b")
-    h = ctx.cargo_build("chan", "chanh", rustflags="--cfg loom")
+    h = ctx.cargo_build("chan", "chanh", rustflags=CHAN_RUSTFLAGS)
     ctx.assumptions += [a for a in ASSUMPTIONS if a not in ctx.assumptions]
     if ctx.replay:
         return [ctx.tie("mpsc3b-replay", _cmd(h, "run", ctx.replay, "--atomics"), [drv])]
